@@ -1,5 +1,6 @@
 import SdJwt.Lemmas.Strip
 import SdJwt.Lemmas.Kept
+import SdJwt.Lemmas.RestoreAll
 /-!
 # C02 — selective disclosure end to end: the verifier sees the original minus the redacted
 
@@ -37,3 +38,15 @@ theorem C02_kept_sublist (paths : List PathEntry) (redacted : List String) :
     (keptEntries paths redacted).Sublist paths := by
   unfold keptEntries
   exact List.filter_sublist.trans List.filter_sublist
+
+/-- the verifier's restoration of what the holder kept (T-restore): if accepted, the claims are
+the original with exactly the marked nodes present whose own and enclosing disclosures were kept —
+i.e. the redacted disclosable claims, and everything inside them, absent; everything else present,
+unchanged and in its original order (that is what `project` is) -/
+theorem C02_verifier (env : Env) (T : MJ) (kept : List String) (inv : TreeInv T)
+    (hacc : ∀ s ∈ kept, ∀ d, fromBase64 env s = .ok d → DOk T d) (c : J) (ps : List PathEntry)
+    (h : restoreAll env T.payload kept = .ok (c, ps)) :
+    removeAll c = T.project (fun g => kept.any (fun s => env.hash s = g)) := by
+  rcases restoreAll_sound env T kept inv hacc with ⟨e, he⟩ | ⟨c', ps', h', hp⟩
+  · rw [he] at h; cases h
+  · rw [h'] at h; cases h; exact hp
